@@ -395,6 +395,13 @@ int read_elf(
       else
     if (elf_shdr.sh_type == SHT_SYMTAB && symbols != NULL)
     {
+      if (elf_shdr.sh_offset > file_length ||
+          elf_shdr.sh_size > file_length - elf_shdr.sh_offset)
+      {
+        printf("Error: ELF section %s is outside of the file.\n", name);
+        return -1;
+      }
+
       long marker = file.tell();
       file.set(elf_shdr.sh_offset);
 
